@@ -58,7 +58,7 @@ CHECKS["C15"] = dict(
    note=RT_NOTE, ref="DESIGN.md section 3 (C15)")
 CHECKS["C16"] = dict(
    technique="exhaustive/sampled truncation fuzzing of valid streams with a prefix oracle, C++ under AddressSanitizer and UBSan",
-   text="Exploration: valid reference-encoded streams are cut at every byte position (streams up to 400 bytes past the header) or at positions around every value start, every 64 KiB multiple and 120 generated positions; each prefix is read by the generated reader (Python; C++ with ASan+UBSan) copying into an NDJSON sink. Binary: every strict prefix must end in an error; NDJSON: an error unless the prefix is itself a complete stream under the documented grammar; values delivered before the error must equal, one by one, the values written at those positions; no crash, sanitizer report or hang.",
+   text="Exploration: valid reference-encoded streams are cut at every byte position (streams up to 400 bytes past the header) or at positions around every value start, every 64 KiB multiple and 120 generated positions (a third of the cases repeat a stream step's items until the stream spans several 64 KiB reader buffers, another third draws strings of 1-3 buffer lengths and vectors of 9000-25000 elements); each prefix is read by the generated reader (Python; C++ with ASan+UBSan) copying into an NDJSON sink. Binary: every strict prefix must end in an error; NDJSON: an error unless the prefix is itself a complete stream under the documented grammar; values delivered before the error must equal, one by one, the values written at those positions; no crash, sanitizer report or hang.",
    note=RT_NOTE, ref="DESIGN.md section 3 (C16)")
 CHECKS["C17"] = dict(
    technique="metamorphic property-based testing: the same item sequence under different block partitions, read/write batch sizes and write groupings must read back identically",
@@ -96,7 +96,7 @@ CHECKS["C19"] = dict(
    ref="DESIGN.md section 3 (C19)")
 CHECKS["C05"] = dict(
    technique="model-based property testing of version chains: generated models evolved by documented edits, reference encoder/decoder and a three-valued documented-conversion function as oracle against the compiled generated C++ reader/writer",
-   text="Exploration: chains M0 -> M1 (-> M2) of generated models, each step 1-2 compatible or partially compatible edits of docs/cpp/evolution.md at generated positions; the newest package lists every predecessor and is compiled (g++) with a driver that can construct the writer with Version::<label>. Read direction: reference-encoded streams of generated values of every old version -> current reader -> current writer -> reference decoder = documented conversion. Write direction: current values -> writer targeting each old version -> must decode under the old model, carry the old schema in its header and equal the documented conversion. Chains yardl rejects are discarded and counted; the conversion oracle (harness/ref/evolve.go, written from the document) returns exact value / error allowed / not documented, and only the first is compared.",
+   text="Exploration: chains M0 -> M1 (-> M2) of generated models, each step 1-2 compatible or partially compatible edits of docs/cpp/evolution.md at generated positions; the newest package lists every predecessor and is compiled (g++) with a driver that can construct the writer with Version::<label>. Read direction: reference-encoded streams of generated values of every old version -> current reader -> current writer -> reference decoder = documented conversion. Write direction: current values -> writer targeting each old version -> must decode under the old model, carry the old schema in its header and equal the documented conversion. Chains yardl rejects are discarded and counted; the conversion oracle (harness/ref/evolve.go, written from the document) returns exact value / must raise (a value with no counterpart in the target version: integer out of range, text that is not a number, union case that does not exist there) / not documented; the first two are judged.",
    note="trusted: the harness's reference binary codec (itself cross-checked against the generated code by C01) and its transcription of the conversion table in docs/cpp/evolution.md; C++ binary only (the only combination for which evolution is documented); NaN/inf floats, rounding and number->string text are not judged",
    ref="DESIGN.md section 3 (C05)")
 NOT_YET = {}
